@@ -20,15 +20,16 @@ CONSTANTS MaxResponses, MaxCalls, MaxToolCalls, DedupDone, Outcomes, Calls, Choi
 \*           mid-body), "empty" (200 with an empty body), "junk_done" (malformed + schema-invalid events, then [DONE])
 ReadOnly == {"read", "ls", "grep", "artifact_fetch"}
 Allowed(choice, tool) ==
-    CASE choice = "none" -> FALSE
+    CASE choice \in {"none", "allowed_hosted_only"} -> FALSE       \* an allow-list without any function entry bars every function
       [] choice = "fn_ls" -> tool = "ls"
       [] choice = "allowed_write" -> tool = "write"
       [] OTHER -> TRUE                                  \* auto, required
-\* collected calls of one response: duplicates of a done event count once (by call id), order = output_index (stable)
+\* collected calls of one response: a repeated done event (same call id at the same output position) counts once;
+\* two different items that share a call id (gateways that emit a constant id) are two calls; order = output_index (stable)
 RECURSIVE Dedup(_, _, _)
 Dedup(cs, i, seen) == IF i > Len(cs) THEN <<>>
-                      ELSE IF cs[i].cid \in seen THEN Dedup(cs, i + 1, seen)
-                      ELSE <<cs[i]>> \o Dedup(cs, i + 1, seen \cup {cs[i].cid})
+                      ELSE IF <<cs[i].cid, cs[i].idx>> \in seen THEN Dedup(cs, i + 1, seen)
+                      ELSE <<cs[i]>> \o Dedup(cs, i + 1, seen \cup {<<cs[i].cid, cs[i].idx>>})
 RECURSIVE Expand(_, _)
 Expand(cs, i) == IF i > Len(cs) THEN <<>>
                  ELSE (IF cs[i].dup THEN <<cs[i], cs[i]>> ELSE <<cs[i]>>) \o Expand(cs, i + 1)
@@ -64,14 +65,14 @@ Loop(cfg, script, st) ==
                                     s2 == [s EXCEPT !.count = @ + 1,
                                                     !.executed = IF ok THEN Append(@, <<c.cid, c.tool>>) ELSE @,
                                                     !.thread = IF ok /\ c.tool \notin ReadOnly /\ cfg.linked THEN Append(@, "side_effects") ELSE @,
-                                                    !.cur = Append(@, c.cid)] IN
+                                                    !.cur = Append(@, c.cid), !.curk = Append(@, <<c.cid, c.idx>>)] IN
                                 Exec(i + 1, s2)
-                       s3 == Exec(1, [st1 EXCEPT !.prev = prev, !.cur = <<>>]) IN
-                   IF s3.reason # "" THEN s3
-                   ELSE Loop(cfg, script, [s3 EXCEPT !.answered = Append(@, s3.cur)])
+                       s3 == Exec(1, [st1 EXCEPT !.prev = prev, !.cur = <<>>, !.curk = <<>>]) IN
+                   IF s3.reason # "" THEN [s3 EXCEPT !.answeredk = Append(@, s3.curk)]
+                   ELSE Loop(cfg, script, [s3 EXCEPT !.answered = Append(@, s3.cur), !.answeredk = Append(@, s3.curk)])
 
 Run(cfg, script) ==
-    LET st0 == [k |-> 1, prev |-> FALSE, count |-> 0, executed |-> <<>>, answered |-> <<>>, cur |-> <<>>,
+    LET st0 == [k |-> 1, prev |-> FALSE, count |-> 0, executed |-> <<>>, answered |-> <<>>, cur |-> <<>>, curk |-> <<>>, answeredk |-> <<>>,
                 thread |-> IF cfg.linked THEN <<"message", "run_spawned", "selection_decided", "context_compiled">> ELSE <<>>,
                 nreq |-> 0, reason |-> ""]
         fin == Loop(cfg, script, st0)
@@ -79,7 +80,7 @@ Run(cfg, script) ==
                \* a request beyond the script is answered by the provider's default (a clean, empty [DONE] response): the run completes
                ELSE fin.thread \o (IF fin.reason \in {"completed", "script_exhausted"} /\ fin.prev THEN <<"cursor_updated">> ELSE <<>>)
                                \o <<"run_ended">> IN
-    [reason |-> fin.reason, nreq |-> fin.nreq, executed |-> fin.executed, answered |-> fin.answered, thread |-> th]
+    [reason |-> fin.reason, nreq |-> fin.nreq, executed |-> fin.executed, answered |-> fin.answered, thread |-> th, groups |-> fin.answeredk]
 
 VARIABLES script, cfg
 Init == script = <<>> /\ cfg \in [choice : Choices, stateless : Modes, linked : {TRUE}]
@@ -97,7 +98,7 @@ Flatten(ss, i) == IF i > Len(ss) THEN <<>> ELSE ss[i] \o Flatten(ss, i + 1)
 \* C16: every executed call is answered, by call id, in the request that follows; nothing is executed twice;
 \*      a tool the configured tool choice bars is never executed; the number of tool calls is bounded
 NoDupSeq(s) == \A i, j \in 1..Len(s) : i # j => s[i] # s[j]
-ExecutedOnce == \A g \in 1..Len(R.answered) : NoDupSeq(R.answered[g])     \* within one response a call id is executed and answered once
+ExecutedOnce == \A g \in 1..Len(R.groups) : NoDupSeq(R.groups[g])     \* within one response a call item is executed and answered once
 BarredNeverRuns == \A i \in 1..Len(R.executed) : Allowed(cfg.choice, R.executed[i][2])
 Bounded == Len(R.executed) <= MaxToolCalls
 \* C07: the thread records selection, compilation, side effects, cursor, run end in that order, run end exactly once and last
